@@ -109,6 +109,9 @@ func mergeSubCmds(ab *cmdsPair, a, b *cmd) {
 		mergeRefs(ab, as, bs)
 		if as == nil {
 			a.sub = append(a.sub, bs)
+			// Otherwise bs would later be sent to device using the
+			// name of its previous toplevel command from raw.
+			bs.subCmdOf = a
 		}
 	}
 }
